@@ -51,6 +51,17 @@ def build_group(case):
     if case.get("route", "matrix") == "matrix":
         G = coxeter.CoxeterGroup(matrix=[list(r) for r in m], generator_style=style)
         return G, m, gen_names(n, style)
+    if case["route"] == "ndarray-reused":
+        # the caller enumerates matrices in one integer buffer: the group is built from the buffer, which is
+        # then overwritten with the next (different, valid) matrix before any automaton is requested
+        buf = np.array([list(r) for r in m], dtype=int)
+        G = coxeter.CoxeterGroup(matrix=buf, generator_style=style)
+        if buf.tolist() != [list(r) for r in m]:
+            case["_ctor_modified"] = buf.tolist()
+        nxt = 3 if all(m[i][j] == 2 for i in range(n) for j in range(i)) else 2
+        buf[...] = nxt
+        np.fill_diagonal(buf, 1)
+        return G, m, gen_names(n, style)
     names = gen_names(n, style)
     pairs = case.get("pairs") or [[i, j] for i in range(n) for j in range(i + 1, n)]
     diagram = [(names[i], names[j], m[i][j]) for (i, j) in pairs]
@@ -157,6 +168,9 @@ def case_matrix(case):
     single = all(len(x) == 1 for x in names)
     V = Collector("matrix %r (%s, %s)" % (m, case.get("route", "matrix"), case.get("style", "alpha")))
     t = 0
+    if "_ctor_modified" in case:
+        V.add("ctor/caller-matrix-modified", "the constructor rewrote the caller's array to %r" % (case["_ctor_modified"],))
+        return {"v": V.out(), "t": 1, "o": "ctor", "nt": True}
     if [list(map(int, r)) for r in np.asarray(G.coxeter_matrix).tolist()] != [list(r) for r in m]:
         V.add("ctor/coxeter_matrix", "library matrix %r" % (np.asarray(G.coxeter_matrix).tolist(),))
         return {"v": V.out(), "t": 1, "o": "ctor", "nt": True}
@@ -476,9 +490,11 @@ def run(ctx):
         cases.append({"m": mm, "L": L3 - 2, "style": "alpha", "route": "diagram", "Lg": 12,
                       "pairs": [[1, 2], [0, 2], [0, 1]]})
         cases.append({"m": mm, "L": L3 - 2, "style": "alphanum", "route": "diagram", "Lg": 12})
+        cases.append({"m": mm, "L": L3 - 2, "style": "alpha", "route": "ndarray-reused", "Lg": 12})
     P("rank3-routes", "checks.c07:case_matrix", cases,
                 domains={"labels": sub, "routes": ["matrix/alphanum", "diagram/alpha listed (1,2),(0,2),(0,1)",
-                                                   "diagram/alphanum"], "L": L3 - 2}, chunk=2)
+                                                   "diagram/alphanum", "integer ndarray overwritten by the caller after construction"],
+                         "L": L3 - 2}, chunk=2)
     # ---- rank 4
     labels4 = [2, 3, 4, 0] if q else [2, 3, 4, 5, 0]
     L4 = 5 if q else 6
